@@ -53,18 +53,28 @@ def run(ctx):
     ix = Index(f["body"])
     defs = local_defs(f)
 
-    def let_of(name):
-        for i, d in defs.items():
-            if d[0] == "let" and binding_of_pat(d[2]) and binding_of_pat(d[2])[0] == name:
-                return i, d[1]
-        return None, None
-    todo_id, todo_let = let_of("todo")
-    out_id, _ = let_of("out")
-    vis_id, _ = let_of("visited")
-    states_id, states_let = let_of("states")
-    inputs_id, inputs_let = let_of("inputs")
+    # the locals are found by their role, not their name
+    def let_where(pred):
+        found = [(i, d[1]) for i, d in defs.items() if d[0] == "let" and "init" in d[1] and not d[1].get("inl_param") and binding_of_pat(d[2]) and pred(i, d[1])]
+        return found[0] if len(found) == 1 else (None, None)
+
+    def is_sys_call(init, name):
+        b, ms = chain(init)
+        return is_local(b, P["sys"]) and [m[0] for m in ms] == [name]
+    todo_id = todo_let = None
+    for l in [n for n in ix.nodes if n.get("k") == "while"]:
+        c = peel(l["cond"])
+        if c.get("k") == "letexpr":
+            b, ms = chain(c["init"])
+            if [m[0] for m in ms] == ["pop"] and peel(b).get("k") == "local" and defs.get(peel(b)["id"], ("",))[0] == "let":
+                todo_id, todo_let = peel(b)["id"], defs[peel(b)["id"]][1]
+    ret0 = peel(stmts_of(f["body"])[-1])
+    out_id = ret0["id"] if ret0.get("k") == "local" and defs.get(ret0["id"], ("",))[0] == "let" else None
+    vis_id, _ = let_where(lambda i, l: ((l["pat"].get("ty") or "").endswith("DenseExprSet") or "HashSet<" in (l["pat"].get("ty") or "")) and not is_sys_call(l["init"], "input_set"))
+    states_id, states_let = let_where(lambda i, l: is_sys_call(l["init"], "state_map"))
+    inputs_id, inputs_let = let_where(lambda i, l: is_sys_call(l["init"], "input_set"))
     if None in (todo_id, out_id, vis_id, states_id, inputs_id):
-        ctx.violation("R17.2", "impl:locals", f["span"], "UNRECOGNISED: expected locals todo/out/visited/states/inputs in cone_of_influence_impl")
+        ctx.violation("R17.2", "impl:locals", f["span"], "UNRECOGNISED: expected a popped work list, a returned list, one visited set and locals bound to sys.state_map() / sys.input_set() in cone_of_influence_impl")
         return
     # sources of states / inputs
     b1, m1 = chain(states_let["init"])
@@ -98,8 +108,13 @@ def run(ctx):
             neg, n = True, peel(n["e"])
         if n.get("k") == "mcall" and n["name"] == "contains" and is_local(n["recv"], vis_id):
             a = peel(n["args"][0])
-            if what_id is None or (a.get("k") == "local" and a["id"] == what_id):
+            if what_id is None or is_local(a, what_id):
                 return (not neg) if negated is None else (neg == negated)
+        # `!visited.insert(x)` is true exactly when x was already visited
+        if n.get("k") == "mcall" and n["name"] == "insert" and is_local(n["recv"], vis_id) and "bool" == (n.get("ty") or ""):
+            a = peel(n["args"][0])
+            if what_id is None or is_local(a, what_id):
+                return neg if negated is None else ((not neg) == negated)
         return False
 
     # skips
@@ -115,6 +130,8 @@ def run(ctx):
     for pu in pushes:
         anc_all = [a for a in ix.ancestors(pu) if contains(body, a)]
         val = peel(pu["args"][0])
+        if val.get("k") == "local":
+            val = dict(val, id=canon(val["id"]))
         d = defs.get(val["id"]) if val.get("k") == "local" else None
         kind = None
         if d and d[0] == "closure":
@@ -124,9 +141,7 @@ def run(ctx):
             okc = call is not None and call.get("k") == "mcall" and call["name"] == "for_each_child"
             if okc:
                 recv = peel(call["recv"])
-                if recv.get("k") == "local":
-                    ri = simple_let_init(defs, recv["id"])
-                    recv = peel(ri) if ri is not None else recv
+                recv = resolve(recv)
                 okc = recv.get("k") == "index" and is_local(recv["i"], pid) and is_local(recv["e"], P["ctx"])
             ifs = [a for a in anc_all if a.get("k") == "if" and contains(cl, a)]
             conds = []
@@ -166,7 +181,7 @@ def run(ctx):
                 elif is_visited_contains(c, val["id"], negated=True):
                     pass
                 elif c.get("k") == "letexpr" and binding_of_pat(c["pat"]["subs"][0] if c["pat"].get("k") == "pvariant" and c["pat"]["subs"] else {"k": "x"}) and binding_of_pat(c["pat"]["subs"][0])[1] == st_id:
-                    b, ms = chain(c["init"])
+                    b, ms = chain(resolve(c["init"]))
                     have["state"] = is_local(b, states_id) and [m[0] for m in ms] == ["get"] and is_local(ms[0][1][0], pid)
                     state_if = a
                 else:
@@ -214,7 +229,7 @@ def run(ctx):
 
 
 def out_formula(c, defs, P, pid, states_id, inputs_id):
-    c = peel(c)
+    c = resolve(c)
     if c.get("k") == "binary" and c["op"] in ("&&", "||"):
         return ("and" if c["op"] == "&&" else "or", out_formula(c["l"], defs, P, pid, states_id, inputs_id), out_formula(c["r"], defs, P, pid, states_id, inputs_id))
     if c.get("k") == "unary" and c["op"] == "!":
@@ -232,6 +247,10 @@ def out_formula(c, defs, P, pid, states_id, inputs_id):
                 return ("atom", "state")
             if is_local(c["recv"], inputs_id):
                 return ("atom", "input")
+        if c["name"] == "is_some":
+            b, ms = chain(resolve(c["recv"]))
+            if is_local(b, states_id) and [m[0] for m in ms] == ["get"] and is_local(ms[0][1][0], pid):
+                return ("atom", "state")
     raise ValueError(show(c))
 
 
